@@ -24,6 +24,20 @@ inductive LockRes where
   | wouldBlock
 deriving Repr, DecidableEq, Inhabited
 
+namespace MutexState
+
+def result (m : MutexState) : LockRes := if m.poisoned then .poisoned m.value else .ok m.value
+
+/-- creating the `MutexGuard` once the permit is held (`p` = `std::thread::panicking()`) -/
+def takeGuard (m : MutexState) (me : Nat) (p : Bool) : MutexState :=
+  { m with holder := some me, guardPanicking := p }
+
+/-- the part of `Drop for MutexGuard` after `semaphore.release(1)` -/
+def dropGuard (m : MutexState) (p : Bool) : MutexState :=
+  { m with holder := none, poisoned := m.poisoned || (p && !m.guardPanicking) }
+
+end MutexState
+
 namespace Mutex
 variable {U : Type}
 
@@ -44,8 +58,8 @@ def lock (L : Lens U MutexState) : Prog U LockRes := do
   let m ← K.getL L
   if m.holder.isSome then K.panic "assertion failed: state.holder.is_none()" else do
   let p ← K.isPanicking
-  K.setL L { m with holder := some me, guardPanicking := p }
-  pure (if m.poisoned then .poisoned m.value else .ok m.value)
+  K.setL L (m.takeGuard me p)
+  pure m.result
 
 /-- `Mutex::try_lock` -/
 def tryLock (L : Lens U MutexState) : Prog U LockRes := do
@@ -56,8 +70,8 @@ def tryLock (L : Lens U MutexState) : Prog U LockRes := do
   | .ok () =>
     let m ← K.getL L
     let p ← K.isPanicking
-    K.setL L { m with holder := some me, guardPanicking := p }
-    pure (if m.poisoned then .poisoned m.value else .ok m.value)
+    K.setL L (m.takeGuard me p)
+    pure m.result
 
 /-- `Drop for MutexGuard`: release (a scheduling point), drop the inner std guard (which poisons
 the std mutex when the thread started panicking while the guard was alive), clear the holder -/
@@ -65,7 +79,7 @@ def unlock (L : Lens U MutexState) : Prog U Unit := do
   Sem.release (semL L) 1
   let m ← K.getL L
   let p ← K.isPanicking
-  K.setL L { m with holder := none, poisoned := m.poisoned || (p && !m.guardPanicking) }
+  K.setL L (m.dropGuard p)
 
 end Mutex
 
@@ -87,6 +101,54 @@ structure RwLockState where
   wGuardPanicking : Bool := false
 deriving Repr, Inhabited
 
+namespace RwLockState
+
+def result (m : RwLockState) : LockRes := if m.poisoned then .poisoned m.value else .ok m.value
+
+/-- is task `me` already a holder (the re-entrancy check of `RwLock::lock`) -/
+def holds (m : RwLockState) (me : Nat) : Bool :=
+  match m.holder with
+  | .write w => w == me
+  | .read rs => rs.contains me
+  | .none => false
+
+inductive Take where
+  | ok (m : RwLockState)
+  /-- `readers.insert(me)` returned false -/
+  | already
+  /-- the holder is incompatible with the request although the permits were obtained -/
+  | incompatible
+
+/-- the holder update of `lock` / `try_lock` once the permits are held -/
+def takeGuard (m : RwLockState) (me : Nat) (write : Bool) (p : Bool) : Take :=
+  match write, m.holder with
+  | true, .none => .ok { m with holder := .write me, wGuardPanicking := p }
+  | false, .none => .ok { m with holder := .read [me] }
+  | false, .read rs =>
+    if rs.contains me then .already else .ok { m with holder := .read (rs ++ [me]) }
+  | _, _ => .incompatible
+
+/-- the part of `Drop for RwLock{Read,Write}Guard` after `semaphore.release`: new state and the
+assertion that fails, if any -/
+def dropGuard (m : RwLockState) (me : Nat) (write : Bool) (p : Bool) : RwLockState × Option String :=
+  match write, m.holder with
+  | false, .read rs =>
+    if !rs.contains me then (m, some "assertion failed: readers.remove(self.me)")
+    else
+      let rs' := rs.filter (· != me)
+      ({ m with holder := if rs'.isEmpty then .none else .read rs' }, none)
+  | false, _ => (m, some "exiting a reader but rwlock is in the wrong state")
+  | true, .write w =>
+    -- `self.inner = None`: the std write guard poisons the lock when the thread started to panic
+    -- while it was alive (the flag is per OS thread: any task's panic counts)
+    let m := { m with poisoned := m.poisoned || (p && !m.wGuardPanicking) }
+    if w != me then (m, some "assertion `left == right` failed")
+    else ({ m with holder := .none }, none)
+  | true, _ =>
+    ({ m with poisoned := m.poisoned || (p && !m.wGuardPanicking) }, some "assertion `left == right` failed")
+
+end RwLockState
+
 namespace RwLock
 variable {U : Type}
 
@@ -100,11 +162,7 @@ def lock (L : Lens U RwLockState) (write : Bool) : Prog U LockRes := do
   let me ← K.me
   let m ← K.getL L
   if !m.sem.closed then
-    let reentrant := match m.holder with
-      | .write w => w == me
-      | .read rs => rs.contains me
-      | .none => false
-    if reentrant then
+    if m.holds me then
       K.panic s!"deadlock! task TaskId({me}) tried to acquire a RwLock it already holds"
     else do
       let ok ← Sem.acquireBlocking (semL L) (permits write)
@@ -113,14 +171,10 @@ def lock (L : Lens U RwLockState) (write : Bool) : Prog U LockRes := do
   let m ← K.getL L
   -- `read()` / `write()` then take the inner std guard (`Poisoned` is passed on with the guard)
   let p ← K.isPanicking
-  let res : LockRes := if m.poisoned then .poisoned m.value else .ok m.value
-  match write, m.holder with
-  | true, .none => do K.setL L { m with holder := .write me, wGuardPanicking := p }; pure res
-  | false, .none => do K.setL L { m with holder := .read [me] }; pure res
-  | false, .read rs =>
-    if rs.contains me then K.panic "assertion failed: readers.insert(me)"
-    else do K.setL L { m with holder := .read (rs ++ [me]) }; pure res
-  | _, _ => K.panic "resumed a waiting thread while the lock was in an incompatible state"
+  match m.takeGuard me write p with
+  | .ok m' => do K.setL L m'; pure m.result
+  | .already => K.panic "assertion failed: readers.insert(me)"
+  | .incompatible => K.panic "resumed a waiting thread while the lock was in an incompatible state"
 
 /-- `RwLock::try_lock(typ)`; `fixedF3` selects the repaired behaviour (give the permit back when the
 caller already holds the read lock) -/
@@ -132,45 +186,29 @@ def tryLock (L : Lens U RwLockState) (write : Bool) (fixedF3 : Bool := true) : P
   | .ok () =>
     let m ← K.getL L
     let p ← K.isPanicking
-    let res : LockRes := if m.poisoned then .poisoned m.value else .ok m.value
-    match write, m.holder with
-    | true, .none => do K.setL L { m with holder := .write me, wGuardPanicking := p }; pure res
-    | false, .none => do K.setL L { m with holder := .read [me] }; pure res
-    | false, .read rs =>
-      if rs.contains me then do
-        -- already a reader: `insert` returns false ⇒ `WouldBlock`
-        if fixedF3 then
-          -- repaired code gives the permit back (`semaphore.release(1)`, a scheduling point)
-          Sem.release (semL L) 1
-        else pure ()
-        pure .wouldBlock
-      else do K.setL L { m with holder := .read (rs ++ [me]) }; pure res
-    | _, _ => pure res
+    match m.takeGuard me write p with
+    | .ok m' => do K.setL L m'; pure m.result
+    | .already => do
+      -- already a reader: `insert` returns false ⇒ `WouldBlock`
+      if fixedF3 then
+        -- repaired code gives the permit back (`semaphore.release(1)`, a scheduling point)
+        Sem.release (semL L) 1
+      else pure ()
+      pure .wouldBlock
+    | .incompatible => pure m.result
 
 /-- `Drop for RwLockReadGuard` / `RwLockWriteGuard` -/
 def unlock (L : Lens U RwLockState) (write : Bool) : Prog U Unit := do
   let me ← K.me
   Sem.release (semL L) (permits write)
   let m ← K.getL L
-  match write, m.holder with
-  | false, .read rs =>
-    if !rs.contains me then K.panic "assertion failed: readers.remove(self.me)"
-    else
-      let rs' := rs.filter (· != me)
-      K.setL L { m with holder := if rs'.isEmpty then .none else .read rs' }
-  | false, _ => K.panic "exiting a reader but rwlock is in the wrong state"
-  | true, .write w =>
-    -- `self.inner = None`: the std write guard poisons the lock when the thread started to panic
-    -- while it was alive (the flag is per OS thread: any task's panic counts)
-    let p ← K.isPanicking
-    let m := { m with poisoned := m.poisoned || (p && !m.wGuardPanicking) }
-    K.setL L m
-    if w != me then K.panic "assertion `left == right` failed"
-    else K.setL L { m with holder := .none }
-  | true, _ => do
-    let p ← K.isPanicking
-    K.setL L { m with poisoned := m.poisoned || (p && !m.wGuardPanicking) }
-    K.panic "assertion `left == right` failed"
+  let p ← K.isPanicking
+  match m.dropGuard me write p with
+  | (m', none) => K.setL L m'
+  | (m', some msg) => do
+    -- only the write guard touches the state (poison flag) before its assertion fails
+    if write then K.setL L m' else pure ()
+    K.panic msg
 
 end RwLock
 
